@@ -33,6 +33,7 @@ type ldScenario struct {
 	Seed       int64    `json:"seed"`
 	Script     []verifkit.Step `json:"script"`
 	Refresh    int      `json:"refresh"`    // 1 = refresh configured (RefreshWriting 1h on a frozen clock)
+	BulkKeys   int      `json:"bulkkeys"`   // keys requested by a BulkGet caller: 1 = {1}, otherwise {1,2}
 }
 
 type ldEvent struct {
@@ -193,8 +194,12 @@ func runLoadScenario(sc ldScenario) ldResult {
 	for i := 1; i <= sc.Bulk; i++ {
 		s.Go("b"+strconv.Itoa(i), guard("BulkGet", func() {
 			note(ldEvent{T: "call", Op: "BulkGet", K: 1})
-			m, err := c.BulkGet(ctx, []int{1, 2}, bulk)
-			for k := 1; k <= 2; k++ {
+			req := []int{1, 2}
+			if sc.BulkKeys == 1 {
+				req = []int{1}
+			}
+			m, err := c.BulkGet(ctx, req, bulk)
+			for _, k := range req {
 				v, ok := m[k]
 				e := errClassLd(err)
 				if !ok && e == "" {
